@@ -10,12 +10,17 @@ use std::time::Instant;
 pub const RULE: &str = "cases = accepted connected graphs with D=1..6, L=1..5 (so D*L covers odd and even values), points whose Box-Muller coordinates a in (0,1) include 1e-300, 2^-53, 1-2^-53 and b in [0,1) includes 0, 1/8, 1/4, 1/2, 3/4, 1-2^-53. oracle: component n=l*D+i of the metadata q_vectors equals sqrt(-2 ln a_j) cos(2 pi b_j) (n even) or sin (n odd) with j = n div 2 and the pair at coordinates 2E-1+2j, 2E+2j; absolute tolerance 2e-14*r; for odd D*L the last sine is unused. non-trivial = D*L odd or L>=2; distinct = distinct case encodings";
 
 pub fn gen_case(t: &mut Tape, tier: Tier) -> Option<Phys> {
-    gen::gen_phys(t, &PhysOpts { max_e: tier.pick(8, 9), max_l: 5, min_omega: 0.15, dmax: 6, max_ops: 1, profile: gen::PointProfile { u_w: [0.6, 0.4, 0.0, 0.0], xi_w: [0.3, 0.0, 0.7, 0.0], lambda_tail: 0.0, bm_extreme: 0.35 } })
+    let opts = PhysOpts { max_e: tier.pick(8, 9), max_l: 5, min_omega: 0.15, dmax: 6, max_ops: 1, profile: gen::PointProfile { u_w: [0.6, 0.4, 0.0, 0.0], xi_w: [0.3, 0.0, 0.7, 0.0], lambda_tail: 0.0, bm_extreme: 0.35 } };
+    if t.chance(0.1) {
+        gen::gen_phys_union(t, &opts)
+    } else {
+        gen::gen_phys(t, &opts)
+    }
 }
 
 fn check_d<const D: usize>(c: &Phys, ctx: &mut Ctx) -> Result<(), Failure> {
     phys::classes_label(c, ctx);
-    let (ne, nl) = phys::validate(c)?;
+    let (ne, nl) = phys::validate_opt(c, true)?;
     let g = &c.g;
     let s = match sut::build::<D>(g, c.kin.sig.clone()) {
         Ok(s) => s,
@@ -68,12 +73,12 @@ fn check_d<const D: usize>(c: &Phys, ctx: &mut Ctx) -> Result<(), Failure> {
     Ok(())
 }
 pub fn check(c: &Phys, ctx: &mut Ctx) -> Result<(), Failure> {
-    phys::validate(c)?;
+    phys::validate_opt(c, true)?;
     with_d!(c.g.d, check_d(c, ctx))
 }
 pub fn run(tier: Tier, seed: u64) -> i32 {
     let t0 = Instant::now();
-    let sp = Spec { id: "C13", rule: RULE, tape_len: 280, cases: tier.pick(30_000, 300_000), gen: gen_case, check, max_shrink_iters: 3000, shards: 16 };
+    let sp = Spec { id: "C13", rule: RULE, tape_len: 280, cases: tier.pick(150_000, 1_500_000), gen: gen_case, check, max_shrink_iters: 3000, shards: 16 };
     let mut stats = engine::run_spec(&sp, tier, seed);
     engine::run_regressions::<Phys>("C13", check, &mut stats);
     engine::finish("C13", tier, seed, RULE, stats, t0, serde_json::json!({}), &["q_vectors observed through return_metadata", "reference Box-Muller evaluated with std f64 functions, tolerance 2e-14*r covers the rounding of 2*pi*b"])
